@@ -293,6 +293,10 @@ template <typename Ret, typename... Args> struct fn_traits<std::function<Ret(Arg
         if constexpr (std::is_lvalue_reference_v<T>) {
           return *std::remove_reference_t<T>::FromFFI(val);
         }
+        else if constexpr (std::is_pointer_v<T>) {
+          // An optional reference to an opaque: a pointer on both sides, null stays null
+          return std::remove_pointer_t<T>::FromFFI(val);
+        }
         else {
           return T::FromFFI(val);
         }
